@@ -310,12 +310,12 @@ def gen_packdir_case(ctx, tree):
     return Case("packdir", tree, d, flags, defs)
 
 
-def gen_glob_case(ctx, tree, idx, multi=False):
+def gen_glob_case(ctx, tree, idx, multi=False, tool=False):
     """pack file: a few explicit entries, then one glob line"""
     r = ctx.rng
     d = {"uid": r.choice([0, 1000]), "gid": r.choice([0, 100]), "mtime": r.choice([0, 1700000000]), "mode": r.choice([0o755, 0o700])}
     dirscan = DEFAULT_FLAGS
-    if r.random() < 0.3:
+    if r.random() < 0.3 and not tool:
         dirscan |= F_NO_HL          # -H on the command line does not reach glob lines (glob_flags start at 0): kept for the record
     target = r.choice([b"", b"", b"usr", b"usr/lib", b"a/b/c", b"x"])
     lines, pre = [], []
@@ -324,7 +324,7 @@ def gen_glob_case(ctx, tree, idx, multi=False):
         pool = [b"pre", b"a", b"zz", b"lib", b"usr", b"0", b"q", b"M"]
         r.shuffle(pool)
         for _ in range(r.randint(1, 3)):
-            kind = r.choice(["dir", "file", "slink", "pipe", "deep"])
+            kind = r.choice(["dir", "slink", "pipe"] if tool else ["dir", "file", "slink", "pipe", "deep"])
             nm = pool.pop() if r.random() < 0.9 else r.choice([b"a", b"usr"])
             path = (target + b"/" if target and r.random() < 0.5 else b"") + nm
             if kind == "dir":
@@ -447,6 +447,9 @@ def classify(ctx, case, res, facts, tag, counters):
         ctx.violation(D16_KEY, "image depends on readdir order for multiply-linked files: the first name seen of a (dev, ino) group "
                       "becomes the real file (dir_hl.c), so inode numbers and data order follow the enumeration", replay)
         return
+    counters["harness_other"] += 1
+    if counters["harness_other"] > 5:
+        return
     if not spec_ok:
         a = next(i for i, d in enumerate(impl) if d != impl[0])
         replay["differing_orders"] = [res[0][0], res[a][0]]
@@ -507,6 +510,210 @@ def build_harness(ctx):
                   libs=[str(lib)] + vlib.CODEC_LIBS + ["-Wl,--wrap=readdir,--wrap=readdir64,--wrap=closedir"])
 
 
+# ------------------------------------------------------------------------------------------------ tool level
+SQFS_TYPE = {stat.S_IFDIR: (1, 8), stat.S_IFREG: (2, 9), stat.S_IFLNK: (3, 10), stat.S_IFBLK: (4, 11), stat.S_IFCHR: (5, 12),
+             stat.S_IFIFO: (6, 13), stat.S_IFSOCK: (7, 14)}
+BLK = 4096
+
+
+def build_tools(ctx):
+    gen = ctx.build_tool("gensquashfs", sanitize=False, tag="plain")
+    shim = ctx.scratch / "shim_readdir.so"
+    r = vlib.sh(["gcc", "-shared", "-fPIC", "-O1", "-w", str(vlib.HARNESS / "shim_readdir.c"), "-o", str(shim), "-ldl"])
+    if r.returncode != 0:
+        raise vlib.CheckFailure("cannot build shim_readdir.so: " + r.stderr[-1000:])
+    lib = ctx.build_lib("san")
+    dump = ctx.cc("h_c11_dump", ["h_c11_dump.c"], libs=[str(lib)] + vlib.CODEC_LIBS)
+    shim_o = ctx.scratch / "shim_wrap.o"
+    r = vlib.sh(["gcc", "-c", "-O1", "-w", "-DSHIM_WRAP", "-DSHIM_LOG_FILE"] + vlib.SAN + [str(vlib.HARNESS / "shim_readdir.c"), "-o", str(shim_o)])
+    if r.returncode != 0:
+        raise vlib.CheckFailure("cannot build shim object: " + r.stderr[-1000:])
+    gen_san = ctx.build_tool("gensquashfs", tag="san", extra_objs=[str(shim_o)],
+                             ldflags=["-Wl,--wrap=readdir,--wrap=readdir64,--wrap=closedir"])
+    return {"gen": gen, "shim": shim, "dump": dump, "gen_san": gen_san}
+
+
+def parse_model_dump(dump):
+    toks = dump.split()
+    if not toks or toks[0] != "ok":
+        return None
+    nodes, i = [], 2
+    while i < len(toks) and toks[i] == "N":
+        f = toks[i + 1:i + 12]
+        nodes.append({"path": f[0], "mode": int(f[1], 8), "uid": int(f[2]), "gid": int(f[3]), "mtime": int(f[4]), "nlink": int(f[5]),
+                      "hard": f[7] == "1", "rdev": int(f[8]), "extra": f[9], "inum": int(f[10])})
+        i += 12
+    files = toks[i + 1:] if i < len(toks) and toks[i] == "F" else []
+    return nodes, files
+
+
+def placement(order, sizes, place):
+    """data placement must follow the file list: walking the files in list order, each file's data lies behind everything
+    written before, or exactly where an earlier file's data lies (deduplicated identical content)"""
+    for what, key, sel in (("blocks", lambda p: p[0], lambda sz: sz >= BLK), ("fragments", lambda p: (p[1], p[2]), lambda sz: sz % BLK != 0)):
+        seen, top = set(), None
+        for i in order:
+            if i not in place or not sel(sizes.get(i, 0)):
+                continue
+            k = key(place[i])
+            if k in seen:
+                continue
+            if top is not None and k < top:
+                return "%s of inode %d at %s lie before data written earlier (%s); file list %s" % (what, i, k, top, order)
+            seen.add(k)
+            top = k
+    return "ok"
+
+
+def model_canon(dump, sizes, place):
+    """what the image must contain according to a model dump; `sizes`/`place`: inode number -> file size / data location
+    (from the image)"""
+    pm = parse_model_dump(dump)
+    if pm is None:
+        return "err"
+    nodes, files = pm
+    by_path = {n["path"]: n for n in nodes}
+    out = []
+    for n in nodes:
+        t = n
+        if n["hard"]:
+            tgt = n["extra"].split(":")[2]
+            t = by_path.get(tgt)
+            if t is None:
+                return "unresolved-link"
+        ty = t["mode"] & 0o170000
+        x = "-"
+        if ty == stat.S_IFLNK:
+            x = t["extra"]
+        elif ty in (stat.S_IFBLK, stat.S_IFCHR):
+            x = "d:%d" % (t["rdev"] & 0xFFFFFFFF)
+        out.append("%s %d %s %o %d %d %d %d %s" % (n["path"], t["inum"], "%d" % SQFS_TYPE[ty][0], t["mode"] & 0o7777, t["uid"], t["gid"],
+                                                   t["mtime"], t["nlink"], x))
+    order = [by_path[f]["inum"] for f in files if f in by_path]
+    return "\n".join(out) + "\nplacement " + placement(order, sizes, place)
+
+
+def image_canon(text):
+    """canonical form of h_c11_dump output; sizes and data locations by inode number"""
+    out, sizes, place = [], {}, {}
+    for l in text.splitlines():
+        f = l.split()
+        if not f or f[0] != "E":
+            continue
+        path, inum, ty, mode, uid, gid, mtime, nlink, x = f[1], int(f[2]), int(f[3]), int(f[4], 8), int(f[5]), int(f[6]), int(f[7]), int(f[8]), f[9]
+        base = ty if ty <= 7 else ty - 7
+        if x.startswith("f:"):
+            _, size, start, fidx, foff = x.split(":")
+            sizes[inum] = int(size)
+            place[inum] = (int(start), int(fidx), int(foff))
+            x = "-"
+        out.append("%s %d %d %o %d %d %d %d %s" % (path, inum, base, mode & 0o7777, uid, gid, mtime, nlink, x))
+    return "\n".join(out) + "\nplacement ok", sizes, place
+
+
+def run_tool_case(ctx, tools, case, cmdline, orders, use_san):
+    """pack under each order; returns [order, image_canon, log_orders, model_sorted_canon, model_unsorted_canon, sha] or crash"""
+    res, mlines, stats = [], [], {}
+    img = ctx.scratch / "tool.sqfs"
+    logf = ctx.scratch / "readdir.log"
+    for o in orders:
+        for f in (img, logf):
+            if f.exists():
+                f.unlink()
+        env = dict(os.environ) if not use_san else ctx.san_env()
+        env.update({"VERIF_READDIR_ORDER": o, "VERIF_READDIR_LOG": str(logf)})
+        env.pop("SOURCE_DATE_EPOCH", None)
+        if not use_san:
+            env["LD_PRELOAD"] = str(tools["shim"])
+        exe = tools["gen_san"] if use_san else tools["gen"]
+        try:
+            r = subprocess.run([str(exe)] + cmdline + [str(img)], env=env, stdout=subprocess.PIPE, stderr=subprocess.PIPE, timeout=300)
+        except subprocess.TimeoutExpired:
+            return None, ("timeout", "", o)
+        if r.returncode not in (0, 1):
+            return None, (r.returncode, r.stderr[-3000:].decode("latin1"), o)
+        log = logf.read_text().replace("\n", ";") if logf.exists() else ""
+        lo = parse_log(log)
+        if r.returncode == 0 and img.exists():
+            sha = vlib.sha(img.read_bytes())
+            d = vlib.sh([str(tools["dump"]), str(img)], env=ctx.san_env(), timeout=120)
+            if d.returncode != 0:
+                return None, ("dump:%d" % d.returncode, d.stderr[-2000:], o)
+            canon, sizes, place = image_canon(d.stdout)
+        else:
+            sha, canon, sizes, place = "failed", "err", {}, {}
+        mlines.append(model_line(case, 1, lo, stats))
+        mlines.append(model_line(case, 0, lo, stats))
+        res.append([o, canon, lo, None, None, sha, sizes, place])
+    m = ctx.driver(["c11"], "\n".join(mlines) + "\n")
+    for i, x in enumerate(res):
+        x[3] = model_canon(m[2 * i], x[6], x[7])
+        x[4] = model_canon(m[2 * i + 1], x[6], x[7])
+    return res, None
+
+
+def classify_tool(ctx, case, cmdline, res, facts, counters):
+    multi = facts[0]
+    hl_on = not (case.flags & F_NO_HL) if case.kind == "packdir" else not (case.glob["flags"] & F_NO_HL)
+    shas = [x[5] for x in res]
+    spec_ok = all(s == shas[0] for s in shas)                  # the property itself: one image whatever the order
+    main_ok = all(x[1] == x[3] for x in res)
+    wit_ok = all(x[1] == x[4] for x in res)
+    replay = {"case": case.describe(), "cmdline": cmdline, "tree_root_listing": listing(case.tree.root), "orders": [x[0] for x in res],
+              "sha256": shas, "image": [x[1] for x in res][:3], "model_sorted": [x[3] for x in res][:3],
+              "model_unsorted": [x[4] for x in res][:3], "level": "tool"}
+    counters["evaluations"] += len(res)
+    counters["tool_runs"] += len(res)
+    if main_ok and spec_ok:
+        return
+    if wit_ok and multi and hl_on:
+        counters["d16"] += 1
+        ctx.violation(D16_KEY, "gensquashfs: sha256 of the image depends on the readdir order for multiply-linked files", replay)
+        return
+    if not spec_ok:
+        a = next(i for i, s in enumerate(shas) if s != shas[0])
+        replay["differing_orders"] = [res[0][0], res[a][0]]
+        if counters["other"] < 5:
+            ctx.violation("order:tool:%s" % vlib.sha(json.dumps(replay, sort_keys=True))[:10],
+                          "gensquashfs produced different images for readdir orders %s and %s (not explained by the hard-link witness)"
+                          % (res[0][0], res[a][0]), replay)
+        counters["other"] += 1
+        return
+    counters["mismatch"] += 1
+    if counters["other"] < 5:
+        ctx.violation("corr:tool:%s" % vlib.sha(json.dumps(replay, sort_keys=True))[:10],
+                      "image read back from gensquashfs disagrees with the model (tree / inode numbers / data order) although all orders "
+                      "gave the same image", replay, found_input=False)
+    counters["other"] += 1
+
+
+def gen_tool_case(ctx, tree, idx, multi):
+    """(case, command line without the output file)"""
+    r = ctx.rng
+    if r.random() < 0.7:
+        mt = r.choice([0, 1234567890])
+        flags = DEFAULT_FLAGS
+        cmd = ["-q", "-f", "-b", str(BLK), "-j", str(r.choice([1, 4])), "-d", "mtime=%d" % mt, "--pack-dir", tree.root.decode("utf-8", "surrogateescape")]
+        defs = {"uid": 0, "gid": 0, "mtime": mt}
+        if r.random() < 0.35:
+            cmd.append(r.choice(["-H", "--no-hard-links"])); flags |= F_NO_HL
+        if r.random() < 0.4:
+            cmd.append(r.choice(["-k", "--keep-time"])); flags |= F_KEEP_TIME
+        if r.random() < 0.3 or tree.mounts:
+            cmd.append(r.choice(["-o", "--one-file-system"])); flags |= F_ONE_FS
+        if r.random() < 0.15:
+            cmd += ["-u", "77"]; flags &= ~F_KEEP_UID; defs["uid"] = 77
+        if r.random() < 0.15:
+            cmd += ["-g", "88"]; flags &= ~F_KEEP_GID; defs["gid"] = 88
+        return Case("packdir", tree, {"uid": 0, "gid": 0, "mtime": mt, "mode": 0o755}, flags, defs), cmd
+    c = gen_glob_case(ctx, tree, 100000 + idx, multi, tool=True)
+    d = c.d
+    cmd = ["-q", "-f", "-b", str(BLK), "-j", str(r.choice([1, 4])), "-d", "uid=%d,gid=%d,mode=%o,mtime=%d" % (d["uid"], d["gid"], d["mode"], d["mtime"]),
+           "-D", tree.root.decode("utf-8", "surrogateescape"), "-F", c.packfile_path.decode()]
+    c.flags = DEFAULT_FLAGS
+    return c, cmd
+
+
 def witness_tree(ctx, idx):
     """DESIGN.md §4 C11: directory {a, b, c}, a and c one inode, b another file"""
     root = (str(ctx.scratch / ("wit%d" % idx))).encode()
@@ -530,7 +737,8 @@ def run(ctx):
                       {"broken": problems, "theorems_file": "lean/Sqfs/Props/C11.lean"}, found_input=False)
     witness_gate(ctx)
     harness = build_harness(ctx)
-    counters = {"evaluations": 0, "d16": 0, "mismatch": 0}
+    tools = build_tools(ctx)
+    counters = {"evaluations": 0, "d16": 0, "mismatch": 0, "tool_runs": 0, "other": 0, "harness_other": 0}
     hist = {"trees": 0, "trees_with_multilink": 0, "packdir_cases": 0, "glob_cases": 0, "err_results": 0, "entries_total": 0,
             "max_dir": 0, "max_depth": 0, "mount_trees": 0}
     distinct = set()
@@ -562,7 +770,33 @@ def run(ctx):
     one(Case("packdir", wt, {"uid": 0, "gid": 0, "mtime": 0, "mode": 0o755}, DEFAULT_FLAGS | F_NO_HL, {"uid": 0, "gid": 0, "mtime": 0}),
         tree_facts(wt.root), "witness-nohl")
 
+    tool_hist = {"tool_cases": 0, "tool_cases_asan": 0, "tool_failed_packs": 0, "tool_packfile_cases": 0}
+
+    def one_tool(tree, facts, idx, use_san):
+        case, cmd = gen_tool_case(ctx, tree, idx, facts[0])
+        orders = orders_for(ctx, n_orders)
+        res, crash = run_tool_case(ctx, tools, case, cmd, orders, use_san)
+        if crash:
+            rc, err, o = crash
+            ctx.violation("crash:tool:%s" % vlib.sha(str(err))[:10], "gensquashfs/reader aborted (rc=%s) under readdir order %s: %s" % (rc, o, str(err)[-400:]),
+                          {"case": case.describe(), "cmdline": cmd, "order": o, "stderr": err, "tree": listing(case.tree.root)})
+            return
+        classify_tool(ctx, case, cmd, res, facts, counters)
+        tool_hist["tool_cases"] += 1
+        tool_hist["tool_cases_asan"] += 1 if use_san else 0
+        tool_hist["tool_packfile_cases"] += 1 if case.kind == "packfile" else 0
+        tool_hist["tool_failed_packs"] += sum(1 for x in res if x[5] == "failed")
+        for x in res:
+            if x[1] != "err" and x[1].count("\n") >= 5:
+                distinct.add(vlib.sha(x[1] + repr(sorted(x[2].items()))))
+        if len(samples) < 9 and tool_hist["tool_cases"] <= 3:
+            samples.append({"tool_cmdline": cmd, "order": res[-1][0], "sha256": res[-1][5], "image": res[-1][1][:300]})
+
+    one_tool(wt, tree_facts(wt.root), 0, False)
+    one_tool(wt, tree_facts(wt.root), 1, True)
+
     # 1. generated trees
+    tool_every = 3 if ctx.quick() else 2
     for t in range(n_trees):
         size = ctx.rng.choice([4, 8, 16, 30, 60] if ctx.quick() else [4, 8, 16, 30, 60, 120, 400])
         want_links = ctx.rng.random() < 0.6
@@ -581,8 +815,11 @@ def run(ctx):
         for k in range(2):
             one(gen_glob_case(ctx, tree, 2 * t + k, facts[0]), facts, "glob")
             hist["glob_cases"] += 1
+        if t % tool_every == 0:
+            one_tool(tree, facts, t, use_san=(t % (4 * tool_every) == 0))
         umount_all()
         shutil.rmtree(tree.root, ignore_errors=True)
+    hist.update(tool_hist)
 
     ctx.cov.update({
         "evaluations": counters["evaluations"],
